@@ -421,7 +421,25 @@ def rule_T11(text):
     return text[:m.start()] + new + text[end:], 1
 
 
-RULES = {'T1': rule_T1, 'T2': rule_T2, 'T3': rule_T3, 'T5': rule_T5, 'T9': rule_T9, 'T10': rule_T10, 'T11': rule_T11}
+def rule_T12(text):
+    """`RECV.or_else(|| BODY)` -> `(match RECV { Some(verif_some) => Some(verif_some), None => BODY })`
+    (the definition of Option::or_else for a closure that takes no argument); BODY becomes ordinary code, so
+    calls inside it can receive the ghost argument of rule T6"""
+    fired = 0
+    while True:
+        mask = code_mask(text)
+        m = re.search(r'(?P<recv>\b[\w\.]+)\s*\.\s*or_else\s*\(\s*\|\s*\|', mask)
+        if not m:
+            break
+        op = mask.index('(', mask.index('or_else', m.start()))
+        cp = match_brace(mask, op, '(', ')')
+        body = text[m.end():cp].strip()
+        text = text[:m.start()] + '(match %s { Some(verif_some) => Some(verif_some), None => %s })' % (m.group('recv'), body) + text[cp + 1:]
+        fired += 1
+    return text, fired
+
+
+RULES = {'T1': rule_T1, 'T2': rule_T2, 'T3': rule_T3, 'T5': rule_T5, 'T9': rule_T9, 'T10': rule_T10, 'T11': rule_T11, 'T12': rule_T12}
 
 
 def rule_T6(body, callees, arg):
@@ -618,6 +636,48 @@ def extract_fn(repo: str, spec: dict):
     info = dict(file=spec['file'], impl=loc['header'], fn=spec['fn'],
                 lines=[src.line_of(loc['start']), src.line_of(loc['end'] - 1)],
                 sha256=sha256(raw), rules_fired=fired)
+    return out, info
+
+
+def extract_closure_fn(repo: str, spec: dict):
+    """A closure bound by `let NAME = [move] |PARAMS| BODY;` inside function spec['fn'] becomes a function:
+    the template supplies the signature (captured variables and parameters, with types), the extractor
+    supplies BODY verbatim.  The closure's parameter names must be the ones listed in spec['params']."""
+    src = Source(repo + '/' + spec['file'])
+    loc = src.find_fn(spec.get('impl') or None, spec['fn'], int(spec.get('nth', 0)))
+    seg_text = src.text[loc['body_open']:loc['end']]
+    seg_mask = src.mask[loc['body_open']:loc['end']]
+    m = re.search(r'\blet\s+' + re.escape(spec['let']) + r'\s*=\s*(?:move\s*)?\|([^|]*)\|', seg_mask)
+    if not m:
+        raise ExtractError('%s::%s: closure binding `let %s = |..| ..` not found' % (spec['file'], spec['fn'], spec['let']))
+    params = [x.strip().split(':')[0].strip() for x in m.group(1).split(',') if x.strip()]
+    want = [x for x in spec.get('params', '').split(',') if x]
+    if params != want:
+        raise ExtractError('%s::%s: closure %s has parameters %s, the contract was written for %s' % (spec['file'], spec['fn'], spec['let'], params, want))
+    j = m.end()
+    while seg_mask[j] in ' \t\n':
+        j += 1
+    if seg_mask[j] == '{':
+        end = match_brace(seg_mask, j) + 1
+        body = seg_text[j:end]
+    else:
+        end = seg_mask.index(';', j)
+        body = '{ ' + seg_text[j:end].strip() + ' }'
+    raw = seg_text[m.start():end]
+    fired = {}
+    for r in spec.get('rules', []):
+        body, n = RULES[r](body)
+        fired[r] = n
+    for (callees, arg) in spec.get('ghost_args', []):
+        body, n = rule_T6(body, callees, arg)
+        fired['T6:' + ','.join(callees)] = n
+    out = spec['signature'].rstrip()
+    if spec.get('contract'):
+        out += '\n' + spec['contract'].rstrip() + '\n    '
+    out += body + '\n'
+    start = loc['body_open'] + m.start()
+    info = dict(file=spec['file'], impl=loc['header'], fn='%s::<closure %s>' % (spec['fn'], spec['let']),
+                lines=[src.line_of(start), src.line_of(loc['body_open'] + end)], sha256=sha256(raw), rules_fired=dict(fired, X1c='closure body -> function'))
     return out, info
 
 
